@@ -146,3 +146,5 @@ def _list_shape(ctx, p, v, allow):
     ok = sel["stmt"].table == "nameplates" and eq is not None and set(eq) == {"app_id"} \
         and is_app_id(eq["app_id"]) and sel["stmt"].all_rows
     return ok, "" if ok else "names are read by %s" % sel["stmt"].normalized()
+
+EXPLANATION += ' Batch 6: no unguarded int()/float() in the list handler (R18.convert).'
